@@ -132,9 +132,12 @@ long sim_heap_allocs(void);        /* number of allocation calls so far */
 long sim_heap_live(void);          /* live raw blocks */
 const char *sim_heap_fail_site(void); /* after a failure fired: "function" containing the allocation call (symbolised lazily), or "" */
 void sim_set_fill(uint8_t b);
+size_t sim_heap_accounted_peak(void); /* highest cjet_get_alloc_size() seen at any allocation */
 
 /* descriptor table / hygiene */
 int sim_open_fds(void);
+int sim_open_conn_cids(int *out, int max);          /* connections whose descriptor the daemon has not closed */
+void sim_open_fd_summary(char *buf, size_t len);      /* kinds of open descriptors, e.g. "connection+timerfd" */
 int sim_hygiene_count(void);
 const char *sim_hygiene_event(int i);     /* full text */
 const char *sim_hygiene_key(int i);       /* stable key */
